@@ -1,11 +1,683 @@
-//! C34 — not built yet (see DESIGN.md §5 C34).
+//! C34 — row triggers fire once per affected row with the right row images (DESIGN §5 C34).
+//!
+//! Explicit-state search (vcore::histmc) over histories `trigger definitions* ; DML+` on a fixed
+//! small database. Triggers are created as `CreateTriggerStmt` ASTs whose header (timing, event,
+//! granularity, WHEN) comes from the real parser and whose body is `TriggerAction::RawSql`
+//! (see `common::apply_op`). Trigger bodies write their trigger id and the OLD/NEW images into an
+//! audit table, or (the "failing" body) into a table whose CHECK rejects v = 20 and v = 80, so that
+//! a trigger fails for one particular row in the middle of a multi-row statement.
+//! A reference firing model computes, from the rows of the pre-state and the trigger set, the
+//! multiset of audit rows the statement has to produce, or that the statement has to fail and
+//! leave the table as it was.
 
-pub fn run(_tier: &str) -> i32 {
-    eprintln!("MACHINERY-ERROR C34 is not built yet");
-    2
+use std::collections::{BTreeMap, HashMap};
+
+use serde_json::json;
+use vibesql_storage::Database;
+
+use vcore::exec::Out;
+use vcore::histmc::{self, Caps, Node, Spec};
+use vcore::report::Report;
+use vcore::val::{self, NV};
+
+use crate::common::{apply_op, describe};
+
+pub const PRELUDE: &[&str] = &[
+    "CREATE TABLE t (id INT PRIMARY KEY, v INT, w INT)",
+    "CREATE TABLE s (id INT PRIMARY KEY, v INT, w INT)",
+    "CREATE TABLE aud (tg INT, oid INT, ov INT, ow INT, nid INT, nv INT, nw INT)",
+    "CREATE TABLE g (tg INT, x INT CHECK (x <> 20 AND x <> 80))",
+    "INSERT INTO t VALUES (1, 10, 100), (2, 20, 200), (3, NULL, 300)",
+    "INSERT INTO s VALUES (4, 40, 400), (5, 80, 500)",
+];
+
+type V = Option<i64>;
+type Row = [V; 3];
+
+// ---------------------------------------------------------------------------------------------
+// trigger definitions
+// ---------------------------------------------------------------------------------------------
+
+#[derive(Clone, Copy, Debug, PartialEq, Eq)]
+enum Ev {
+    Insert,
+    Update,
+    UpdateOfV,
+    Delete,
+}
+#[derive(Clone, Copy, Debug, PartialEq, Eq)]
+enum When {
+    None,
+    /// NEW.v > 15 (OLD.v > 15 for DELETE)
+    Gt15,
+    /// OLD.v IS NULL (NEW.v IS NULL for INSERT)
+    IsNull,
 }
 
-pub fn replay(_case: &serde_json::Value) -> i32 {
-    eprintln!("MACHINERY-ERROR C34 is not built yet");
-    2
+#[derive(Clone, Debug)]
+struct TDef {
+    id: usize,
+    before: bool,
+    ev: Ev,
+    row: bool,
+    when: When,
+    fail: bool,
+    sql: String,
+}
+
+fn tdefs() -> Vec<TDef> {
+    let mut v = vec![];
+    let mut id = 0;
+    for before in [true, false] {
+        for ev in [Ev::Insert, Ev::Update, Ev::UpdateOfV, Ev::Delete] {
+            for row in [true, false] {
+                let whens: &[When] = if row { &[When::None, When::Gt15, When::IsNull] } else { &[When::None] };
+                for &when in whens {
+                    for fail in [false, true] {
+                        id += 1;
+                        let timing = if before { "BEFORE" } else { "AFTER" };
+                        let event = match ev {
+                            Ev::Insert => "INSERT",
+                            Ev::Update => "UPDATE",
+                            Ev::UpdateOfV => "UPDATE OF (v)",
+                            Ev::Delete => "DELETE",
+                        };
+                        let gran = if row { "ROW" } else { "STATEMENT" };
+                        let w = match (when, ev) {
+                            (When::None, _) => String::new(),
+                            (When::Gt15, Ev::Delete) => " WHEN (OLD.v > 15)".into(),
+                            (When::Gt15, _) => " WHEN (NEW.v > 15)".into(),
+                            (When::IsNull, Ev::Insert) => " WHEN (NEW.v IS NULL)".into(),
+                            (When::IsNull, _) => " WHEN (OLD.v IS NULL)".into(),
+                        };
+                        let (o, n) = match ev {
+                            Ev::Insert => ("NULL, NULL, NULL", "NEW.id, NEW.v, NEW.w"),
+                            Ev::Delete => ("OLD.id, OLD.v, OLD.w", "NULL, NULL, NULL"),
+                            _ => ("OLD.id, OLD.v, OLD.w", "NEW.id, NEW.v, NEW.w"),
+                        };
+                        let body = match (row, fail) {
+                            (true, false) => format!("INSERT INTO aud VALUES ({}, {}, {})", id, o, n),
+                            (true, true) => format!("INSERT INTO g VALUES ({}, {})", id, if ev == Ev::Insert { "NEW.v" } else { "OLD.v" }),
+                            (false, false) => format!("INSERT INTO aud VALUES ({}, NULL, NULL, NULL, NULL, NULL, NULL)", id),
+                            (false, true) => format!("INSERT INTO g VALUES ({}, 20)", id),
+                        };
+                        let sql = format!("CREATE TRIGGER tg{} {} {} ON t FOR EACH {}{} BEGIN {} END", id, timing, event, gran, w, body);
+                        v.push(TDef { id, before, ev, row, when, fail, sql });
+                    }
+                }
+            }
+        }
+    }
+    v
+}
+
+// ---------------------------------------------------------------------------------------------
+// DML menu with reference semantics
+// ---------------------------------------------------------------------------------------------
+
+#[derive(Clone, Copy, Debug, PartialEq, Eq)]
+enum DKind {
+    Insert,
+    /// `v_in_set`: column v is a target of SET
+    Update { v_in_set: bool },
+    Delete,
+}
+
+#[derive(Clone)]
+struct Dml {
+    sql: &'static str,
+    shape: &'static str,
+    kind: DKind,
+    /// reference semantics: (rows of t, rows of s) -> affected (old, new) pairs; None = the
+    /// statement is invalid on this state (duplicate key) and is not a case
+    f: fn(&[Row], &[Row]) -> Option<Vec<(Option<Row>, Option<Row>)>>,
+}
+
+fn ins(t: &[Row], new: &[Row]) -> Option<Vec<(Option<Row>, Option<Row>)>> {
+    let mut ids: Vec<V> = t.iter().map(|r| r[0]).collect();
+    for r in new {
+        if ids.contains(&r[0]) {
+            return None;
+        }
+        ids.push(r[0]);
+    }
+    Some(new.iter().map(|r| (None, Some(*r))).collect())
+}
+
+fn upd(t: &[Row], sel: fn(&Row) -> bool, set: fn(&Row) -> Row) -> Option<Vec<(Option<Row>, Option<Row>)>> {
+    let out: Vec<(Option<Row>, Option<Row>)> = t.iter().filter(|r| sel(r)).map(|r| (Some(*r), Some(set(r)))).collect();
+    // key collisions make the statement invalid
+    let mut ids: Vec<V> = t.iter().filter(|r| !sel(r)).map(|r| r[0]).collect();
+    for (_, n) in &out {
+        let id = n.unwrap()[0];
+        if ids.contains(&id) {
+            return None;
+        }
+        ids.push(id);
+    }
+    Some(out)
+}
+
+fn del(t: &[Row], sel: fn(&Row) -> bool) -> Option<Vec<(Option<Row>, Option<Row>)>> {
+    Some(t.iter().filter(|r| sel(r)).map(|r| (Some(*r), None)).collect())
+}
+
+fn dmls(thorough: bool) -> Vec<Dml> {
+    let mut v = vec![
+        Dml { sql: "INSERT INTO t VALUES (6, 60, 600)", shape: "insert_single", kind: DKind::Insert, f: |t, _| ins(t, &[[Some(6), Some(60), Some(600)]]) },
+        Dml { sql: "INSERT INTO t VALUES (7, 7, 700), (8, 80, 800)", shape: "insert_multi", kind: DKind::Insert, f: |t, _| ins(t, &[[Some(7), Some(7), Some(700)], [Some(8), Some(80), Some(800)]]) },
+        Dml { sql: "INSERT INTO t SELECT * FROM s", shape: "insert_select_star", kind: DKind::Insert, f: |t, s| ins(t, s) },
+        Dml { sql: "INSERT INTO t (id, v, w) SELECT id, v, w FROM s", shape: "insert_select_columns", kind: DKind::Insert, f: |t, s| ins(t, s) },
+        Dml { sql: "UPDATE t SET v = v + 1", shape: "update_all", kind: DKind::Update { v_in_set: true }, f: |t, _| upd(t, |_| true, |r| [r[0], r[1].map(|x| x + 1), r[2]]) },
+        Dml { sql: "UPDATE t SET v = 99 WHERE id = 2", shape: "update_one_by_key", kind: DKind::Update { v_in_set: true }, f: |t, _| upd(t, |r| r[0] == Some(2), |r| [r[0], Some(99), r[2]]) },
+        Dml { sql: "UPDATE t SET w = w + 1", shape: "update_other_column", kind: DKind::Update { v_in_set: false }, f: |t, _| upd(t, |_| true, |r| [r[0], r[1], r[2].map(|x| x + 1)]) },
+        Dml { sql: "UPDATE t SET v = 0 WHERE id = 9", shape: "update_no_row", kind: DKind::Update { v_in_set: true }, f: |t, _| upd(t, |r| r[0] == Some(9), |r| [r[0], Some(0), r[2]]) },
+        Dml { sql: "DELETE FROM t WHERE id = 1", shape: "delete_one_by_key", kind: DKind::Delete, f: |t, _| del(t, |r| r[0] == Some(1)) },
+        Dml { sql: "DELETE FROM t WHERE v > 5", shape: "delete_some", kind: DKind::Delete, f: |t, _| del(t, |r| r[1].map(|x| x > 5).unwrap_or(false)) },
+        Dml { sql: "DELETE FROM t", shape: "delete_all", kind: DKind::Delete, f: |t, _| del(t, |_| true) },
+        Dml { sql: "DELETE FROM t WHERE id = 9", shape: "delete_no_row", kind: DKind::Delete, f: |t, _| del(t, |r| r[0] == Some(9)) },
+    ];
+    if thorough {
+        v.extend([
+            Dml { sql: "UPDATE t SET id = id + 10 WHERE id = 1", shape: "update_key", kind: DKind::Update { v_in_set: false }, f: |t, _| upd(t, |r| r[0] == Some(1), |r| [r[0].map(|x| x + 10), r[1], r[2]]) },
+            Dml { sql: "UPDATE t SET v = v, w = 0", shape: "update_same_value", kind: DKind::Update { v_in_set: true }, f: |t, _| upd(t, |_| true, |r| [r[0], r[1], Some(0)]) },
+            Dml { sql: "INSERT INTO t VALUES (9, NULL, 900)", shape: "insert_single_null", kind: DKind::Insert, f: |t, _| ins(t, &[[Some(9), None, Some(900)]]) },
+            Dml { sql: "UPDATE t SET v = 30 WHERE v IS NULL", shape: "update_null_rows", kind: DKind::Update { v_in_set: true }, f: |t, _| upd(t, |r| r[1].is_none(), |r| [r[0], Some(30), r[2]]) },
+        ]);
+    }
+    v
+}
+
+// ---------------------------------------------------------------------------------------------
+// reference firing model
+// ---------------------------------------------------------------------------------------------
+
+/// What the statement must do.
+#[derive(Debug, Clone, PartialEq)]
+enum Expect {
+    /// a fired trigger fails (culprit trigger id): statement fails, t unchanged
+    Fail(usize),
+    /// audit rows / g rows (trigger id first) that must appear, ones that may appear, new t
+    Ok { must: Vec<Vec<V>>, may: Vec<Vec<V>>, t: Vec<Row> },
+}
+
+#[derive(PartialEq)]
+enum Fire {
+    Must,
+    No,
+    May,
+}
+
+fn when_holds(w: When, ev: Ev, o: &Option<Row>, n: &Option<Row>) -> bool {
+    match (w, ev) {
+        (When::None, _) => true,
+        (When::Gt15, Ev::Delete) => o.unwrap()[1].map(|x| x > 15).unwrap_or(false),
+        (When::Gt15, _) => n.unwrap()[1].map(|x| x > 15).unwrap_or(false),
+        (When::IsNull, Ev::Insert) => n.unwrap()[1].is_none(),
+        (When::IsNull, _) => o.unwrap()[1].is_none(),
+    }
+}
+
+fn expect(trigs: &[&TDef], d: &Dml, t: &[Row], s: &[Row]) -> Option<Expect> {
+    let affected = (d.f)(t, s)?;
+    let mut must = vec![];
+    let mut may = vec![];
+    let mut fail: Option<usize> = None;
+    for tr in trigs {
+        // does the event match the statement?
+        let ev_fire = match (tr.ev, d.kind) {
+            (Ev::Insert, DKind::Insert) | (Ev::Delete, DKind::Delete) | (Ev::Update, DKind::Update { .. }) => true,
+            (Ev::UpdateOfV, DKind::Update { v_in_set }) => v_in_set,
+            _ => false,
+        };
+        if !ev_fire {
+            continue;
+        }
+        if !tr.row {
+            if tr.fail {
+                fail = fail.or(Some(tr.id));
+            } else {
+                must.push(vec![Some(tr.id as i64), None, None, None, None, None, None]);
+            }
+            continue;
+        }
+        for (o, n) in &affected {
+            let mut fire = Fire::Must;
+            if tr.ev == Ev::UpdateOfV && o.unwrap()[1] == n.unwrap()[1] {
+                // column named in SET but its value did not change: SQL fires, "changed value"
+                // implementations do not; the property statement does not decide
+                fire = Fire::May;
+            }
+            if !when_holds(tr.when, tr.ev, o, n) {
+                fire = Fire::No;
+            }
+            if fire == Fire::No {
+                continue;
+            }
+            let rowv: Vec<V> = if tr.fail {
+                let x = if tr.ev == Ev::Insert { n.unwrap()[1] } else { o.unwrap()[1] };
+                if x == Some(20) || x == Some(80) {
+                    if fire == Fire::Must {
+                        fail = fail.or(Some(tr.id));
+                        continue;
+                    } else {
+                        return None; // may-fire and failing: outcome not determined, not a case
+                    }
+                }
+                vec![Some(tr.id as i64), x]
+            } else {
+                let mut r = vec![Some(tr.id as i64)];
+                r.extend(o.map(|x| x.to_vec()).unwrap_or(vec![None; 3]));
+                r.extend(n.map(|x| x.to_vec()).unwrap_or(vec![None; 3]));
+                r
+            };
+            if fire == Fire::Must {
+                must.push(rowv);
+            } else {
+                may.push(rowv);
+            }
+        }
+    }
+    if let Some(id) = fail {
+        return Some(Expect::Fail(id));
+    }
+    // new content of t
+    let mut nt: Vec<Row> = vec![];
+    match d.kind {
+        DKind::Insert => {
+            nt.extend_from_slice(t);
+            nt.extend(affected.iter().map(|(_, n)| n.unwrap()));
+        }
+        DKind::Update { .. } => {
+            for r in t {
+                match affected.iter().find(|(o, _)| o.unwrap() == *r) {
+                    Some((_, n)) => nt.push(n.unwrap()),
+                    None => nt.push(*r),
+                }
+            }
+        }
+        DKind::Delete => {
+            nt.extend(t.iter().filter(|r| !affected.iter().any(|(o, _)| o.unwrap() == **r)).cloned());
+        }
+    }
+    nt.sort();
+    must.sort();
+    may.sort();
+    Some(Expect::Ok { must, may, t: nt })
+}
+
+// ---------------------------------------------------------------------------------------------
+// observation
+// ---------------------------------------------------------------------------------------------
+
+fn to_v(x: &vibesql_types::SqlValue) -> V {
+    match val::norm(x) {
+        NV::Int(i) => Some(i as i64),
+        _ => None,
+    }
+}
+
+fn rows_of(db: &Database, table: &str) -> Vec<Vec<V>> {
+    let mut r: Vec<Vec<V>> = vcore::obs::rows_of(db, table).iter().map(|r| r.iter().map(to_v).collect()).collect();
+    r.sort();
+    r
+}
+
+fn t_rows(db: &Database, table: &str) -> Vec<Row> {
+    rows_of(db, table).iter().map(|r| [r[0], r[1], r[2]]).collect()
+}
+
+/// multiset difference a − b; None if b is not contained in a
+fn minus(a: &[Vec<V>], b: &[Vec<V>]) -> Option<Vec<Vec<V>>> {
+    let mut a = a.to_vec();
+    for x in b {
+        let p = a.iter().position(|y| y == x)?;
+        a.remove(p);
+    }
+    a.sort();
+    Some(a)
+}
+
+fn fmt_rows(r: &[Vec<V>]) -> String {
+    let rows: Vec<String> = r.iter().take(10).map(|x| format!("({})", x.iter().map(|v| v.map(|i| i.to_string()).unwrap_or("NULL".into())).collect::<Vec<_>>().join(","))).collect();
+    format!("[{}{}]", rows.join(","), if r.len() > 10 { ",…" } else { "" })
+}
+
+/// Compare one transition with the reference. Returns (aspect, culprit trigger id, description).
+fn judge(trigs: &[&TDef], d: &Dml, pre: &Database, post: &Database, out: &Out) -> Result<Option<(&'static str, usize, String)>, &'static str> {
+    let t0 = t_rows(pre, "T");
+    let s0 = t_rows(pre, "S");
+    let Some(exp) = expect(trigs, d, &t0, &s0) else { return Err("not_a_case") };
+    let t1 = t_rows(post, "T");
+    match exp {
+        Expect::Fail(culprit) => {
+            if out.is_ok() {
+                return Ok(Some(("failing_trigger_ignored", culprit, format!("trigger tg{} fails for a row of this statement, yet the statement reports {}", culprit, out.brief()))));
+            }
+            if out.is_panic() {
+                return Ok(Some(("panic", culprit, out.brief())));
+            }
+            if t1 != t0 {
+                return Ok(Some(("failed_statement_changed_table", culprit, format!("the statement failed ({}) but t went from {} to {}", out.brief(), fmt_rows(&t0.iter().map(|r| r.to_vec()).collect::<Vec<_>>()), fmt_rows(&t1.iter().map(|r| r.to_vec()).collect::<Vec<_>>())))));
+            }
+            Ok(None)
+        }
+        Expect::Ok { must, may, t } => {
+            if out.is_panic() {
+                return Ok(Some(("panic", trigs.first().map(|t| t.id).unwrap_or(0), out.brief())));
+            }
+            if !out.is_ok() {
+                return Err("rejected_by_engine"); // a valid statement wrongly rejected is not C34's business
+            }
+            // audit rows written by this statement
+            let mut got: Vec<Vec<V>> = vec![];
+            for tb in ["AUD", "G"] {
+                match minus(&rows_of(post, tb), &rows_of(pre, tb)) {
+                    Some(d) => got.extend(d),
+                    None => return Ok(Some(("audit_rows_vanished", 0, format!("rows of {} present before the statement are gone", tb)))),
+                }
+            }
+            got.sort();
+            // got must contain `must` and the rest must be within `may`
+            let rest = minus(&got, &must);
+            let okk = match &rest {
+                Some(r) => minus(&may, r).is_some(),
+                None => false,
+            };
+            if !okk {
+                // culprit: first trigger whose rows differ
+                for tr in trigs {
+                    let sel = |rows: &[Vec<V>]| -> Vec<Vec<V>> { rows.iter().filter(|r| r[0] == Some(tr.id as i64)).cloned().collect() };
+                    let (g, m, y) = (sel(&got), sel(&must), sel(&may));
+                    let fine = match minus(&g, &m) {
+                        Some(r) => minus(&y, &r).is_some(),
+                        None => false,
+                    };
+                    if !fine {
+                        let aspect = if g.len() < m.len() {
+                            "missing_firing"
+                        } else if g.len() > m.len() + y.len() {
+                            "extra_firing"
+                        } else {
+                            "wrong_row_image"
+                        };
+                        return Ok(Some((aspect, tr.id, format!("trigger tg{} wrote {} but has to write {}{}", tr.id, fmt_rows(&g), fmt_rows(&m), if y.is_empty() { String::new() } else { format!(" (optionally also {})", fmt_rows(&y)) }))));
+                    }
+                }
+                return Ok(Some(("unattributed_audit_rows", 0, format!("audit rows {} expected {}", fmt_rows(&got), fmt_rows(&must)))));
+            }
+            if t1 != t {
+                return Err("dml_effect_differs"); // which rows a statement touches is C09's business
+            }
+            Ok(None)
+        }
+    }
+}
+
+// ---------------------------------------------------------------------------------------------
+// the search
+// ---------------------------------------------------------------------------------------------
+
+struct C34Spec {
+    defs: Vec<TDef>,
+    dmls: Vec<Dml>,
+    def_by_sql: HashMap<String, usize>,
+    dml_by_sql: HashMap<String, usize>,
+    /// core definitions (see `spec`)
+    core: Vec<usize>,
+    /// indexes into defs from which pairs of triggers are drawn
+    pair_pool: Vec<usize>,
+    max_trigs: usize,
+    max_dml: usize,
+    pairs_get_two_statements: bool,
+    counters: Counters,
+}
+
+#[derive(Default)]
+struct Counters {
+    judged: std::sync::atomic::AtomicU64,
+    not_a_case: std::sync::atomic::AtomicU64,
+    rejected: std::sync::atomic::AtomicU64,
+    dml_differs: std::sync::atomic::AtomicU64,
+    expect_fail: std::sync::atomic::AtomicU64,
+    firings: std::sync::atomic::AtomicU64,
+    outcomes: std::sync::Mutex<BTreeMap<String, u64>>,
+    by_dml: std::sync::Mutex<BTreeMap<String, u64>>,
+}
+
+#[derive(Clone, Default)]
+pub struct M {
+    trigs: Vec<usize>,
+    n_dml: usize,
+}
+
+fn case_json(hist: &[String]) -> serde_json::Value {
+    json!({"prelude": PRELUDE, "steps": hist, "probes": ["SELECT * FROM t", "SELECT * FROM aud", "SELECT * FROM g"]})
+}
+
+fn signature(aspect: &str, culprit: Option<&TDef>, d: &Dml, n_trigs: usize) -> Vec<(&'static str, String)> {
+    let mut s = vec![("aspect", aspect.to_string()), ("dml", d.shape.to_string()), ("triggers_on_table", n_trigs.min(2).to_string())];
+    if let Some(t) = culprit {
+        s.push(("timing", if t.before { "before" } else { "after" }.into()));
+        s.push(("event", format!("{:?}", t.ev)));
+        s.push(("granularity", if t.row { "row" } else { "statement" }.into()));
+        s.push(("when", format!("{:?}", t.when)));
+        s.push(("body", if t.fail { "failing" } else { "audit" }.into()));
+    }
+    s
+}
+
+impl Spec for C34Spec {
+    type M = M;
+    fn init(&self) -> Vec<Node<M>> {
+        vec![Node { db: vcore::exec::fresh(PRELUDE), model: M::default(), hist: vec![] }]
+    }
+    fn alphabet(&self, _db: &Database, m: &M, _h: &[String]) -> Vec<String> {
+        let mut a = vec![];
+        if m.n_dml == 0 && m.trigs.len() < self.max_trigs {
+            // trigger sets are built in ascending order of definition (no permutations);
+            // a second and later trigger comes from the core list
+            let last = m.trigs.last().copied();
+            // the second trigger of a set comes from `pair_pool`, a third one from the core list
+            let pool: &Vec<usize> = if m.trigs.len() >= 2 { &self.core } else { &self.pair_pool };
+            for (i, d) in self.defs.iter().enumerate() {
+                if let Some(l) = last {
+                    if i <= l || !pool.contains(&i) || m.trigs.iter().any(|t| !pool.contains(t)) {
+                        continue;
+                    }
+                }
+                a.push(d.sql.clone());
+            }
+        }
+        // quick tier: a second statement only follows histories with at most one trigger
+        // and only if that trigger is one of the core definitions
+        let second_ok = m.trigs.len() < 3 && (self.pairs_get_two_statements || m.trigs.is_empty() || (m.trigs.len() == 1 && self.core.contains(&m.trigs[0])));
+        if m.n_dml < self.max_dml && (m.n_dml == 0 || second_ok) {
+            a.extend(self.dmls.iter().map(|d| d.sql.to_string()));
+        }
+        a
+    }
+    fn apply(&self, db: &mut Database, op: &str) -> Out {
+        apply_op(db, op)
+    }
+    fn model_key(&self, m: &M) -> String {
+        format!("{:?}/{}", m.trigs, m.n_dml)
+    }
+    fn step(&self, pre: &Database, m: &M, op: &str, post: &Database, out: &Out, hist: &[String], rep: &Report) -> Option<M> {
+        use std::sync::atomic::Ordering::Relaxed;
+        if let Some(&i) = self.def_by_sql.get(op) {
+            if !out.is_ok() {
+                // a well-formed definition the engine rejects is not a case
+                self.counters.rejected.fetch_add(1, Relaxed);
+                return None;
+            }
+            let mut m2 = m.clone();
+            m2.trigs.push(i);
+            return Some(m2);
+        }
+        let d = &self.dmls[self.dml_by_sql[op]];
+        let trigs: Vec<&TDef> = m.trigs.iter().map(|i| &self.defs[*i]).collect();
+        let verdict = judge(&trigs, d, pre, post, out);
+        let mut m2 = m.clone();
+        m2.n_dml += 1;
+        match verdict {
+            Err(why) => {
+                match why {
+                    "not_a_case" => self.counters.not_a_case.fetch_add(1, Relaxed),
+                    "rejected_by_engine" => self.counters.rejected.fetch_add(1, Relaxed),
+                    _ => self.counters.dml_differs.fetch_add(1, Relaxed),
+                };
+                if why == "not_a_case" { Some(m2) } else { None }
+            }
+            Ok(None) => {
+                self.counters.judged.fetch_add(1, Relaxed);
+                let t0 = t_rows(pre, "T");
+                let s0 = t_rows(pre, "S");
+                let key = match expect(&trigs, d, &t0, &s0) {
+                    Some(Expect::Fail(_)) => {
+                        self.counters.expect_fail.fetch_add(1, Relaxed);
+                        "statement_fails_table_unchanged".to_string()
+                    }
+                    Some(Expect::Ok { must, .. }) => {
+                        self.counters.firings.fetch_add(must.len() as u64, Relaxed);
+                        format!("ok_with_{}_firings", must.len())
+                    }
+                    None => "-".into(),
+                };
+                *self.counters.outcomes.lock().unwrap().entry(key).or_default() += 1;
+                *self.counters.by_dml.lock().unwrap().entry(d.shape.to_string()).or_default() += 1;
+                Some(m2)
+            }
+            Ok(Some((aspect, culprit, what))) => {
+                let case = case_json(hist);
+                let again = [run_case(&case, false), run_case(&case, false)];
+                if again.iter().all(|r| matches!(r, Ok(Some((a, _))) if a == aspect)) {
+                    let c = self.defs.iter().find(|t| t.id == culprit);
+                    rep.violation(&signature(aspect, c, d, trigs.len()), format!("after {:?}: {}", hist, what), case);
+                } else {
+                    rep.machinery_error(format!("case {:?} gave `{}` in the search but {:?} when re-executed", hist, aspect, again));
+                }
+                None
+            }
+        }
+    }
+}
+
+fn spec(thorough: bool) -> C34Spec {
+    let defs = tdefs();
+    let dmls = dmls(thorough);
+    // core: row-level audit/failing triggers without WHEN for every timing × event, plus the
+    // statement-level audit triggers — the combinations in which two triggers interact
+    let core: Vec<usize> = defs
+        .iter()
+        .enumerate()
+        .filter(|(_, d)| (d.row && d.when == When::None) || (!d.row && !d.fail && !d.before))
+        .map(|(i, _)| i)
+        .collect();
+    let pair_pool: Vec<usize> = if thorough { (0..defs.len()).collect() } else { core.clone() };
+    C34Spec {
+        def_by_sql: defs.iter().enumerate().map(|(i, d)| (d.sql.clone(), i)).collect(),
+        dml_by_sql: dmls.iter().enumerate().map(|(i, d)| (d.sql.to_string(), i)).collect(),
+        defs,
+        dmls,
+        core,
+        pair_pool,
+        max_trigs: if thorough { 3 } else { 2 },
+        max_dml: 2,
+        pairs_get_two_statements: thorough,
+        counters: Counters::default(),
+    }
+}
+
+pub fn run(tier: &str) -> i32 {
+    let mut rep = Report::new("C34", tier, "model_checking");
+    vibesql_types::verif::reset();
+    let thorough = tier == "thorough";
+    let sp = spec(thorough);
+    let depth = sp.max_trigs + sp.max_dml;
+    let caps = Caps { max_states: if thorough { 3_000_000 } else { 400_000 }, max_secs: if thorough { 600.0 } else { 20.0 } };
+    // stateless guard: one trigger, one statement, no merging
+    let guard = C34Spec { max_trigs: 1, max_dml: 1, counters: Counters::default(), ..spec(thorough) };
+    let st2 = histmc::bfs(&guard, 2, false, &rep, &Caps { max_states: 5_000_000, max_secs: if thorough { 120.0 } else { 12.0 } });
+    let st = histmc::bfs(&sp, depth, true, &rep, &caps);
+    histmc::stats_into(&mut rep, "", &st);
+    histmc::stats_into(&mut rep, "stateless_guard_", &st2);
+    use std::sync::atomic::Ordering::Relaxed;
+    let c = &sp.counters;
+    rep.set("trigger_definitions", json!(sp.defs.len()));
+    rep.set("trigger_definitions_in_pairs", json!(sp.pair_pool.len()));
+    rep.set("trigger_definitions_in_triples", json!(if thorough { sp.core.len() } else { 0 }));
+    rep.set("dml_statements", json!(sp.dmls.len()));
+    rep.set("dml_transitions_judged", json!(c.judged.load(Relaxed)));
+    rep.set("dml_transitions_not_a_case", json!(c.not_a_case.load(Relaxed)));
+    rep.set("transitions_rejected_by_engine", json!(c.rejected.load(Relaxed)));
+    rep.set("dml_effect_differs_from_reference", json!(c.dml_differs.load(Relaxed)));
+    rep.set("cases_where_a_trigger_must_fail_the_statement", json!(c.expect_fail.load(Relaxed)));
+    rep.set("expected_firings_checked", json!(c.firings.load(Relaxed)));
+    rep.set("distinct_outcomes", json!(c.outcomes.lock().unwrap().clone()));
+    rep.set("judged_by_dml_shape", json!(c.by_dml.lock().unwrap().clone()));
+    rep.set("exhaustive", json!(!st.capped && !st2.capped));
+    rep.set("samples", json!(st.samples));
+    rep.set("rule", json!("BFS over all histories (trigger definitions in ascending order — quick: ≤2, thorough: ≤3, see trigger_definitions_in_pairs/_in_triples; then ≤2 DML statements, one after three triggers) on the real Database; states merged on the canonical Debug fingerprint plus the model (trigger set, number of statements); every DML transition is compared with a reference firing model computed from the pre-state rows: multiset of audit rows (trigger id, OLD image, NEW image) written by the statement, statement-level triggers once, WHEN evaluated under three-valued logic, a failing firing ⇒ the statement fails and t is unchanged; violating states are reported and not expanded"));
+    let (reach, vac) = vcore::report::reach_json(&["bulk_transfer", "delete_truncate_fast_path", "delete_pk_fast_path"]);
+    rep.set("reach", reach);
+    rep.set("vacuous_mechanisms", vac);
+    rep.assume("equal canonical Debug fingerprints imply equal futures");
+    rep.assume("UPDATE OF (v) with v named in SET but unchanged in value: firing is accepted either way (the property statement does not decide between the SQL rule and the changed-value rule)");
+    rep.finish()
+}
+
+fn run_case(case: &serde_json::Value, verbose: bool) -> Result<Option<(String, String)>, String> {
+    let defs = tdefs();
+    let dmls = dmls(true);
+    let steps: Vec<String> = case["steps"].as_array().map(|a| a.iter().filter_map(|x| x.as_str().map(|s| s.to_string())).collect()).unwrap_or_default();
+    let mut db = vcore::exec::fresh(PRELUDE);
+    let mut trigs: Vec<&TDef> = vec![];
+    for sql in &steps {
+        let pre = db.clone();
+        let out = apply_op(&mut db, sql);
+        if verbose {
+            println!("{}\n   => {}", sql, out.brief());
+        }
+        if let Some(t) = defs.iter().find(|t| t.sql == *sql) {
+            if out.is_ok() {
+                trigs.push(t);
+            }
+            continue;
+        }
+        let Some(d) = dmls.iter().find(|d| d.sql == sql) else { return Err(format!("unknown op {}", sql)) };
+        if verbose {
+            for tb in ["T", "AUD", "G"] {
+                println!("   {} = {}", tb, fmt_rows(&rows_of(&db, tb)));
+            }
+            let e = expect(&trigs, d, &t_rows(&pre, "T"), &t_rows(&pre, "S"));
+            println!("   reference: {:?}", e);
+        }
+        match judge(&trigs, d, &pre, &db, &out) {
+            Ok(Some((a, _, what))) => return Ok(Some((a.to_string(), what))),
+            Ok(None) | Err("not_a_case") => {}
+            Err(_) => return Ok(None),
+        }
+    }
+    if verbose {
+        println!("{}", describe(&db));
+    }
+    Ok(None)
+}
+
+pub fn replay(case: &serde_json::Value) -> i32 {
+    match run_case(case, true) {
+        Ok(Some((a, what))) => {
+            println!("VIOLATED {}: {}", a, what);
+            1
+        }
+        Ok(None) => {
+            println!("the reference firing model is satisfied on this tree");
+            0
+        }
+        Err(e) => {
+            eprintln!("MACHINERY-ERROR {}", e);
+            2
+        }
+    }
 }
